@@ -154,13 +154,24 @@ def arrival_guard(ctx, P, iters):
     for view in family_views(P, "ArrivalNode"):
         cls, fn = view.method("have_event")
         ok = False
-        for n in ast.walk(fn):
-            if isinstance(n, ast.Call) and call_name(n) == "release_individual":
-                p = n
-                while p is not fn:
-                    p = p._parent
-                    if isinstance(p, ast.For):
-                        ok = True
+        w = Walker(P, view, keep=lambda e: (e.kind == "call" and e.d["meth"] == "release_individual") or (e.kind in ("iter", "loopexit") and isinstance(e.node, ast.For)),
+                   inline=rules.new_helper, loop_iters=iters)
+        for st in w.paths_of(cls, fn):
+            depth, inside, outside = 0, 0, 0
+            for e in st.events:
+                if e.kind == "iter":
+                    depth = 1
+                elif e.kind == "loopexit":
+                    depth = 0
+                elif depth:
+                    inside += 1
+                else:
+                    outside += 1
+            if inside and not outside:
+                ok = True
+            if outside:
+                ok = False
+                break
         ob.ok("batch-loop:%s" % view.name)
         if not ok:
             ctx.violation(ob, "R5.admission", "%s.have_event" % cls.name, "release_individual outside the batch loop", "guard-hoisted",
